@@ -482,6 +482,101 @@ func coordinatedInlineEdit(r *Rng, p *PReg, stats *Stats) []byte {
 	return b
 }
 
+// wideUintEdit replaces one unsigned integer that a decoder later uses as an index, a count or a capacity by a
+// wide (4- or 8-byte) CBOR integer with a boundary value: the top bit set (negative after a conversion to int),
+// all ones, just above 2^32 / 2^31 / 2^16, or a plausible-looking but enormous count.  Candidates: indexes into
+// the shared extra-data section (type-info references, extra-data indexes of inlined containers), the element
+// count and the seed recorded in a root map's extra data and in shared map entries, and - as noise - any byte
+// that looks like a small unsigned integer head.
+func wideUintEdit(r *Rng, id RegID, raw []byte, stats *Stats) []byte {
+	b := append([]byte{}, raw...)
+	headLen := func(pos int) int {
+		if pos >= len(b) || b[pos]>>5 != 0 {
+			return 0
+		}
+		switch ai := b[pos] & 0x1f; {
+		case ai < 24:
+			return 1
+		case ai == 24:
+			return 2
+		case ai == 25:
+			return 3
+		case ai == 26:
+			return 5
+		case ai == 27:
+			return 9
+		}
+		return 0
+	}
+	var pos []int
+	for i := 0; i+2 < len(b); i++ {
+		if b[i] == 0xd8 && b[i+1] == 0xf6 {
+			pos = append(pos, i+2) // type-info reference index
+		}
+		if b[i] == 0xd8 && (b[i+1] == 0xfa || b[i+1] == 0xfb || b[i+1] == 0xfc) && i+3 < len(b) && b[i+2] == 0x83 {
+			pos = append(pos, i+3) // extra-data index of an inlined container
+		}
+	}
+	if p, err := ParseRegister(id, raw); err == nil {
+		for _, x := range p.IED {
+			if x.Kind == "cmap" || x.Kind == "map" {
+				pos = append(pos, x.CountPos)
+				// the seed follows the count
+				if hl := headLen(x.CountPos); hl > 0 {
+					pos = append(pos, x.CountPos+hl)
+				}
+			}
+		}
+		if p.ExtraLen > 0 && (p.Kind == "map.data" || p.Kind == "map.meta") {
+			// root map extra data: 0x83 typeinfo count seed - locate seed and count from the end of the section
+			end := 2 + p.ExtraLen
+			for _, sw := range []int{9, 5, 3, 2, 1} {
+				sp := end - sw
+				if sp > 2 && headLen(sp) == sw {
+					pos = append(pos, sp)
+					for _, cw := range []int{1, 2, 3, 5, 9} {
+						if cp := sp - cw; cp > 2 && headLen(cp) == cw {
+							pos = append(pos, cp)
+							break
+						}
+					}
+					break
+				}
+			}
+		}
+	}
+	if len(pos) == 0 || r.Chance(0.15) {
+		// noise: any byte that reads as an unsigned integer head
+		for try := 0; try < 8 && len(b) > 2; try++ {
+			q := 2 + r.Intn(len(b)-2)
+			if headLen(q) > 0 && q+headLen(q) <= len(b) {
+				pos = append(pos, q)
+				break
+			}
+		}
+	}
+	if len(pos) == 0 {
+		return b
+	}
+	q := pos[r.Intn(len(pos))]
+	hl := headLen(q)
+	if hl == 0 || q+hl > len(b) {
+		return b
+	}
+	small := uint64(r.Intn(4))
+	vals := []uint64{1 << 63, 1<<63 | small, 1<<64 - 1, 1<<64 - 2, 1 << 62, 1 << 59, 1 << 43, 1 << 32, 1<<32 | small, 1<<32 - 1, 1 << 31, 1<<31 | small, 1 << 22, 1 << 16, 1<<16 | small, 256 + small, 255}
+	v := vals[r.Intn(len(vals))]
+	var enc []byte
+	if v < 1<<32 && r.Chance(0.5) {
+		enc = []byte{0x1a, byte(v >> 24), byte(v >> 16), byte(v >> 8), byte(v)}
+	} else {
+		enc = []byte{0x1b, byte(v >> 56), byte(v >> 48), byte(v >> 40), byte(v >> 32), byte(v >> 24), byte(v >> 16), byte(v >> 8), byte(v)}
+	}
+	out := append(append(append([]byte{}, b[:q]...), enc...), b[q+hl:]...)
+	stats.Inc("disk.struct.wide-uint")
+	return out
+}
+
 func init() {
 	ps := &PropSpec{
 		ID: "C19", Level: "exploration",
@@ -582,6 +677,8 @@ func init() {
 					input[1] = []byte{0x00, 0x01, 0x08, 0x09, 0x0b, 0x1f, 0x80, 0x81, 0x88, 0x89, 0x3f}[mr.Intn(11)]
 				}
 				agg.Inc("disk.random")
+			} else if mr.Chance(0.12) {
+				input = wideUintEdit(mr, it.id, it.raw, agg)
 			} else if mr.Chance(0.3) {
 				input = structEdit(mr, it.id, it.raw, agg)
 				if mr.Chance(0.2) {
